@@ -31,4 +31,11 @@ inductive BStep where
   | unknown            -- anything else
 deriving DecidableEq, Repr
 
+/-- how the loop of `ExtraFiles.dump_for_tree` produces an exported entry -/
+inductive TreeMode where
+  | copy       -- metadata["data"].append({"file": _relative_to(item["file"], basepath), "size": item["size"], "checksums": item["checksums"]})
+  | inPlace    -- item["file"] = _relative_to(item["file"], basepath); metadata["data"].append(item)   (rewrites the stored record)
+  | unknown    -- anything else
+deriving DecidableEq, Repr
+
 end PM
